@@ -3,7 +3,8 @@
    being a function of host and path (C04) and the handlers a function of the path (C06) - every request served through
    cache_check / inner_file_handler gets exactly F of its own key: on a hit, on a miss, after evictions and expiries, for
    every history, every clock and every cache size. Property theorems only (proofs: CacheTransparencyProofs.v). *)
-From Hv Require Import Prelude Cache CacheProofs CacheTransparencyProofs.
+From Hv Require Import Prelude Bytes TablesHttp TablesConfig Http Krauss Routing RoutingProofs Blacklist StaticFs Config
+  Server ServerProofs ServerCacheKeyProofs Cache CacheProofs CacheTransparencyProofs.
 Open Scope N_scope.
 
 Theorem C16_cache_transparent :
@@ -34,6 +35,32 @@ Proof.
   - eexists. eexists. split; [vm_compute; reflexivity|]. split; reflexivity.
 Qed.
 
+(* The hypothesis of the two theorems above ("what the handlers compute is a function of the cache key") is a theorem about
+   the server model: the key is (request path, host index) - the index server.rs bakes into each route's closure - and two
+   routed, admitted requests with the same key get the same answer, whatever their Host values, peers, queries and other
+   header fields; in particular the route index is a function of the key. (A wiring that hands the handlers another number
+   than the host index breaks the end-to-end part of the C16 check: several hosts, cache on, same paths.) *)
+Theorem C16_server_answer_function_of_cache_key :
+  forall ipp fs (c : config) p1 p2 req1 req2 ch1 ch2,
+    is_upgrade req1 = false -> is_upgrade req2 = false ->
+    Blacklist.serve ipp (cf_bl_mode c =? BLOCK_MODE) (cf_bl_list c) p1 (r_headers req1) = Served ->
+    Blacklist.serve ipp (cf_bl_mode c =? BLOCK_MODE) (cf_bl_list c) p2 (r_headers req2) = Served ->
+    get_handler (map subapp_of (cf_hosts c)) (subapp_of (cf_default_host c))
+                (option_map scalars (hget (HKnown H_Host) (r_headers req1))) (scalars (r_uri req1)) = Some ch1 ->
+    get_handler (map subapp_of (cf_hosts c)) (subapp_of (cf_default_host c))
+                (option_map scalars (hget (HKnown H_Host) (r_headers req2))) (scalars (r_uri req2)) = Some ch2 ->
+    r_uri req1 = r_uri req2 -> fst (handler_ids ch1) = fst (handler_ids ch2) ->
+    server_response ipp fs c p1 req1 = server_response ipp fs c p2 req2.
+Proof. exact server_answer_function_of_cache_key. Qed.
+
+Theorem C16_route_index_function_of_key :
+  forall subapps default host1 host2 uri ch1 ch2,
+    get_handler subapps default host1 uri = Some ch1 -> get_handler subapps default host2 uri = Some ch2 ->
+    fst (handler_ids ch1) = fst (handler_ids ch2) -> ch1 = ch2.
+Proof. exact route_index_function_of_key. Qed.
+
 Print Assumptions C16_cache_transparent.
+Print Assumptions C16_server_answer_function_of_cache_key.
+Print Assumptions C16_route_index_function_of_key.
 Print Assumptions C16_cache_transparent_from_start.
 Print Assumptions C16_transparent_example.
